@@ -85,6 +85,14 @@ CHECKS.update({
             SYMNOTE + "Axes methods draw on their receiver; pyplot functions on the current axes.", "DESIGN.md §4 C20"),
 })
 
+CHECKS.update({
+    "C13": (True, "literal-table validation (Legendre roots/weights), guard cut-off rule over AST + reaching definitions, "
+                  "units typing and normal forms from partial symbolic evaluation",
+            CLAUSE + "Decides KN-GL, KN-REGIME, KN-GUARD, KN-AFF, KN-UNITS, KN-NORM, KN-SBVN, KN-UNI, KN-DISPATCH. Declines: "
+            "monotonicity, range [0,1], tail limits and 1e-7 agreement with a reference CDF for all arguments.",
+            SYMNOTE + "Genz's bvnl constants are the specification of the guards and regimes.", "DESIGN.md §4 C13"),
+})
+
 NOT_APPLICABLE = {
     "C05": "soundness of the mGH lower/upper bounds is a theorem about computed values for every graph pair and RNG "
            "draw; no ownership, ordering, wiring or algebraic-type argument implies it (DESIGN.md §6); nearby "
